@@ -103,7 +103,7 @@ def h_tokens(k0: int, k1: int, k2: int, k3: int, k4: int, k5: int, k6: int, k7: 
 # ---- the other operation classes --------------------------------------------------------
 def h_tokens_misc(which: int, s: int):
     """
-    pre: 0 <= which <= 13 and 0 <= s <= 2
+    pre: 0 <= which <= 16 and 0 <= s <= 2
     post: _[0]
     post: not _[1]
     """
@@ -114,7 +114,7 @@ def h_tokens_misc(which: int, s: int):
     ok = True
     expect = None
     w = 0
-    for i in range(14):
+    for i in range(17):
         if which == i:
             w = i
 
@@ -277,6 +277,61 @@ def h_tokens_misc(which: int, s: int):
                 r = D.call(prog())
                 expect = 3 * s + 2 * s
                 good = r[0] == "ok" and len(r[1]) == 1 and same_seq(r[1][0], items)
+            elif w == 14:  # apply with four awaitable arguments (three positional, one keyword)
+                r = D.call(A.apply(lambda a, b, c, d=None: (a, b, c, d), aval(1), aval(2), aval(3), d=aval(4)))
+                expect = 4 * s
+                good = r == ("ok", (1, 2, 3, 4))
+            elif w == 15:  # a context from contextmanager open inside an async generator that is closed at its yield
+                log = []
+
+                @A.contextmanager
+                async def cm():
+                    await sus()
+                    try:
+                        yield 1
+                    finally:
+                        await sus()
+                        log.append("cleanup")
+
+                async def gen():
+                    async with cm() as v:
+                        yield v
+
+                async def prog():
+                    g = gen()
+                    v = await g.__anext__()
+                    await g.aclose()
+                    return (v, list(log))
+
+                r = D.call(prog())
+                expect = 2 * s
+                good = r == ("ok", (1, ["cleanup"]))
+            elif w == 16:  # a tee closed by one task while another task is suspended inside the source
+                src = W.source(items, "acls")
+                t = A.tee(src, 2)
+                good = True
+                expect = None
+                r = None
+                if s > 0:
+                    from .world import Token, _is_crosshair_control
+
+                    co = t[0].__anext__()
+                    tok = co.send(None)  # task A now waits inside the user's source
+                    r = D.call(t.aclose())  # task B closes the tee meanwhile (it may refuse, it must not invent suspensions)
+                    while True:
+                        if type(tok) is not Token or tok not in W.pending:
+                            W.bad("c17:foreign-suspension")
+                            break
+                        W.pending.remove(tok)
+                        D.nsusp += 1
+                        try:
+                            tok = co.send(tok.reply)
+                        except (StopIteration, StopAsyncIteration):
+                            break
+                        except BaseException as e:  # noqa
+                            if _is_crosshair_control(e):
+                                raise
+                            break
             elif w == 13:  # any_iter over a future-like awaitable (awaitable and iterable at once)
                 from .c19 import FutureLike
 
@@ -326,7 +381,7 @@ def h_tokens_misc(which: int, s: int):
         return finish(fail("misc-%d:suspended-with-nonsuspending-arguments" % w), False)
     if not good:
         ok = fail("misc-%d:wrong-result" % w, r) and ok
-    if D.nsusp != W.ntok or W.pending or W.ntok != expect:
+    if D.nsusp != W.ntok or W.pending or (expect is not None and W.ntok != expect):
         ok = fail("misc-%d:suspension-count-mismatch" % w, (D.nsusp, W.ntok, expect)) and ok
     for v in W.viol:
         ok = fail("misc-%d:%s" % (w, v)) and ok
@@ -407,7 +462,7 @@ def _grid():
     return out
 
 
-GRID = {"h_sync_sizes": lambda: [(w, sz) for w in range(len(SIZE_OPS)) for sz in (0, 1, 5, 1000, 10001, 70000)], "h_tokens": _grid, "h_tokens_misc": lambda: [(w, s) for w in range(14) for s in range(3)]}
+GRID = {"h_sync_sizes": lambda: [(w, sz) for w in range(len(SIZE_OPS)) for sz in (0, 1, 5, 1000, 10001, 70000)], "h_tokens": _grid, "h_tokens_misc": lambda: [(w, s) for w in range(17) for s in range(3)]}
 
 TOOLS1 = ["filter", "filter_none", "filterfalse", "takewhile", "dropwhile", "pairwise", "cycle", "accumulate_f", "accumulate_f_init", "enumerate", "batched", "starmap", "islice", "iter_sentinel"]
 TOOLS2 = ["zip", "zip_longest", "map", "chain", "chain_from", "compress", "merge"]
